@@ -264,7 +264,7 @@ Proof.
     split; [reflexivity|]. split; [exact (adv_app_fail [_] _ _ _ _ A1)|].
     split; [split; [eexists; reflexivity|split; [cbn [recover]; now rewrite app_nil_r|auto]]|]. split; assumption.
   - specialize (O1 eq_refl). specialize (L1 eq_refl).
-    destruct (file_write_spec h (o_tmp o) cs wa) as (f2 & wb & x2 & E2 & A2 & S2 & X2 & L2). rewrite E2.
+    Show. destruct (file_write_spec h (o_tmp o) cs wa) as (f2 & wb & x2 & E2 & A2 & S2 & X2 & L2). rewrite E2.
     pose proof (same_rest_cfg _ _ S2) as C2. destruct S2 as (S2r & S2o & _).
     destruct f2; cbv beta iota zeta delta [err_of is_nil negb eio].
     + (* a write fails: Close, Remove, exit *)
